@@ -11,3 +11,15 @@ package numbers
 //@ ensures [unsigned-values-must-fit] imp(typeis(input, uint64) && input.(uint64) > 9223372036854775807, result1 != nil) && imp(typeis(input, uint) && input.(uint) > 9223372036854775807, result1 != nil)
 //@ ensures [text-is-parsed-as-decimal] imp(typeis(input, string), calls(strconv.ParseInt) == 1 && iff(result1 != nil, result_of(strconv.ParseInt, 1) != nil) && imp(result1 == nil, result0 == result_of(strconv.ParseInt, 0)))
 //@ at call strconv.ParseInt assert arg(a0) == input.(string) && arg(a1) == 10 && arg(a2) == 64
+
+// Numbers of the listed kinds and decimal text; an unsigned value beyond the signed range and anything else is an error,
+// never a fault.
+//@ func ParseFloat
+//@ props C13 C15
+//@ modifies nothing
+//@ ensures [floats-as-they-are] imp(typeis(input, float64), result1 == nil && result0 == input.(float64))
+//@ ensures [plain-ints-converted] imp(typeis(input, int), result1 == nil && result0 == real(input.(int))) && imp(typeis(input, int64), result1 == nil && result0 == real(input.(int64)))
+//@ ensures [huge-unsigned-values-are-rejected] imp(typeis(input, uint64) && input.(uint64) > 9223372036854775807, result1 != nil)
+//@ ensures [text-is-parsed] imp(typeis(input, string), calls(strconv.ParseFloat) == 1 && iff(result1 != nil, result_of(strconv.ParseFloat, 1) != nil) && imp(result1 == nil, result0 == result_of(strconv.ParseFloat, 0)))
+//@ ensures [other-kinds-are-rejected] imp(typeis(input, bool) || input == nil, result1 != nil)
+//@ at call strconv.ParseFloat assert arg(a0) == input.(string) && arg(a1) == 64
